@@ -173,6 +173,8 @@ class TheCheck(Check):
                     self.qref[op] = py_parse_queries(q, e, sp)
                     qs.append(op)
         sts.append(Stream("query-any-separator", qs))
+        from checks import mtpure
+        sts.append(mtpure.stream(self))      # hidden shared state shows only with concurrent callers
         return sts
 
     def judge(self, op, line):
